@@ -283,6 +283,19 @@ class LV:
     def max(self, axis=None, **k):
         return MinMax(self, 'max', axis)
 
+    def astype(self, dtype, *a, **k):
+        # a view only tracks WHERE each element comes from: a conversion to another element type is outside the lemma
+        if str(_np.dtype(dtype)) != 'float64':
+            unsupported('astype(%s): element conversions are decided by Tier T' % _np.dtype(dtype))
+        return self
+
+    def __getattr__(self, name):
+        # code under a bare `except` may swallow the AttributeError: flag the path first so that whatever follows is
+        # reported as inconclusive and not as a verdict
+        if not (name.startswith('__') and name.endswith('__')):
+            unsupported('ndarray attribute %r' % name)
+        raise AttributeError(name)
+
     def __array__(self, *a, **k):
         unsupported('conversion of a lazy view to an ndarray')
         return _np.zeros(0)
